@@ -63,7 +63,7 @@ claim("C17", "actor-goroutine closure over the VTA call graph (interpreter dispa
       "current scope; (R17d) no unchecked map-miss dereference; (R17e) every evaluation on the actor - and every client callback that is handed a value - is under a recover; (R17f) no blocking send to a "
       "client-owned channel; (R17g) no goroutine spawned from the loop (serial delivery); (R17h) a recovered panic is stored into the function's named "
       "error result on every recovered path (otherwise a panicking update is acknowledged and installs nil); (R17i) the engine's mailboxes are "
-      "unbuffered (a client call returns only when the actor took the message, so calls made in sequence are served in sequence); (R17j) every request received on the gRPC update stream is answered (Send) or ends the stream before the next Recv; (R17k) no mutex an observer callback takes is held across a call that rendezvous with the engine goroutine. Ordering/fairness between concurrent clients is not decided.", NOTE, "DESIGN.md §3 C17")
+      "unbuffered (a client call returns only when the actor took the message, so calls made in sequence are served in sequence); (R17j) every request received on the gRPC update stream is answered (Send) or ends the stream before the next Recv; (R17k) no mutex an observer callback takes is held across a call that rendezvous with the engine goroutine; (R17l) a watcher closed after being read from the watcher map is deleted from it, or the map variable replaced, on every path before the actor's next select. Ordering/fairness between concurrent clients is not decided.", NOTE, "DESIGN.md §3 C17")
 
 claim("C11", "guarded-by analysis (must-hold lockset dataflow, sync.Once Do-closure / dominance), purity of callbacks passed to concurrent frozen APIs and across goroutines, condition-variable wake-up rule",
       "Decides the synchronisation conventions on every path: (R11a) callbacks handed to frozen APIs that fan out over goroutines write no "
@@ -142,7 +142,7 @@ claim("C05", "TS-SCCP dispatch totality of CallAll/Concatenate over all represen
       "Decides structural necessary conditions of keyed-collection semantics: (R05a) no CallAll(representation x argument type) or Concatenate(pair) "
       "cell definitely panics; (R05b) each branch of the >> / >>> evaluator that maps over a holey store tests the hole marker before handing the "
       "element to the function; (R05c) a function that builds a sequence from another operand's backing store also reads that operand's offset; "
-      "(R05d) a dict map is rebuilt from entries only with a look-up of the key in the builder (several values per key are kept); (R01f) Dict methods that read map values handle keys with several values; (R03a) no keyed-collection operator writes through a shared store. "
+      "(R05d) a dict map is rebuilt from entries only with a look-up of the key in the builder (several values per key are kept); (R01f) Dict methods that read map values handle keys with several values; (R05e) every literal that fills a value type's store also sets the integer fields its Count reads; (R03a) no keyed-collection operator writes through a shared store. "
       "Which value is returned for a key, the ?: fallback classification and shift arithmetic are value-level and not decided.", NOTE, "DESIGN.md §3 C05")
 
 claim("C02", "construction-discipline checks over go/ssa (raw re-slices of holey stores, uncanonicalised tuple allocation), table agreement of the sugar-shape switches, TS-SCCP Equal symmetry, provenance of the positional row digest",
